@@ -14,7 +14,8 @@ PROPERTY = "C14"
 RULE = ("trajectories x {xy, xz, yz}: planar poses with every heading on a 1 degree grid (quick) / 0.1 degree grid (thorough) "
         "over (-180, 180] (enumerated) plus Hypothesis-drawn headings; general 3-D poses incl. gimbal-lock attitudes, both "
         "storage modes, pre-read views, with and without timestamps. Non-trivial = non-planar input or planar with |heading| "
-        "> 1 degree; distinct by SHA-1 (grid cases by construction)")
+        "> 1 degree; distinct by SHA-1 (grid cases by construction)"
+        ' Round-3 additions: drawn operations between the first and the refused second projection; --project_to_plane through evo_traj with merge/sync (cli_project).')
 ASSUMPTIONS = ["'unchanged' for planar poses means within 1e-9 in every matrix entry",
                "pure rotation about the normal: |R n - n| <= 1e-12 and the two in-plane quaternion components <= 1e-12"]
 NULL = {"xy": 2, "xz": 1, "yz": 0}
